@@ -72,6 +72,10 @@ impl Case {
     match (self.root_spelling, &self.root) {
       (1, T::Dir(_) | T::LinkDir(_)) => "root/",
       (2, T::Dir(_) | T::LinkDir(_)) => "root/.",
+      // the same three, spelled from the top of the file system (`<ABS>` = the sandbox of the run)
+      (4, T::Dir(_) | T::LinkDir(_)) => "<ABS>/root/",
+      (5, T::Dir(_) | T::LinkDir(_)) => "<ABS>/root/.",
+      (3..=5, _) => "<ABS>/root",
       _ => "root",
     }
   }
@@ -89,7 +93,7 @@ impl Case {
       globs: strs("globs"),
       specs: strs("specs"),
       shuffle_seed: v.get("shuffle_seed").and_then(|s| s.as_u64()).unwrap_or(0),
-      root_spelling: match v.get("root_spelling").and_then(|s| s.as_str()) { Some("root/") => 1, Some("root/.") => 2, _ => 0 },
+      root_spelling: match v.get("root_spelling").and_then(|s| s.as_str()) { Some("root/") => 1, Some("root/.") => 2, Some("<ABS>/root") => 3, Some("<ABS>/root/") => 4, Some("<ABS>/root/.") => 5, _ => 0 },
       bad_name: v.get("file_with_non_utf8_name").and_then(|b| b.as_bool()).unwrap_or(false),
       stdout_inside: v.get("stdout_appended_to_a_file_in_the_tree").and_then(|b| b.as_bool()).unwrap_or(false),
       specials: v.get("specials").and_then(|b| b.as_bool()).unwrap_or(false),
@@ -171,7 +175,7 @@ fn gen(rng: &mut Rng) -> Case {
     globs: globs.clone(),
     specs: (0..ns).map(|_| rng.pick(&specs_pool).to_string()).collect(),
     shuffle_seed: rng.next(),
-    root_spelling: *rng.pick(&[0u8, 0, 0, 1, 2]),
+    root_spelling: *rng.pick(&[0u8, 0, 0, 1, 2, 3, 4, 5]),
     // (only without globs: whether a glob would have excluded such a name first is not something the statement pins)
     bad_name: globs.is_empty() && rng.chance(1, 12),
     stdout_inside: rng.chance(1, 10),
@@ -454,7 +458,8 @@ fn observe(ctx: &Ctx, c: &Case) -> Obs {
     sb.write("home/.gitconfig", format!("[core]\n\texcludesFile = {}\n", sb.path("home/excl").display()).as_bytes());
     home_env = true;
   }
-  let mut args: Vec<String> = ["torrent", "create", "--input", c.root_arg(), "--output", "o.torrent", "--piece-length", "16384"].iter().map(|s| s.to_string()).collect();
+  let root_arg = c.root_arg().replace("<ABS>", &sb.root.to_string_lossy());
+  let mut args: Vec<String> = ["torrent", "create", "--input", &root_arg, "--output", "o.torrent", "--piece-length", "16384"].iter().map(|s| s.to_string()).collect();
   if c.hidden {
     args.push("--include-hidden".into());
   }
@@ -503,7 +508,7 @@ pub fn run(ctx: &Ctx) -> Report {
      (acyclic, unbroken, also as the root), equal sizes, names where component-wise and string order differ (a/b vs a.b, a b, a-b); all 8 flag combinations, 0-3 globs with `!`, 0-3 sort specs; \
      observable: info.files[].path order and exit status; non-trivial = directory root with >= 2 entries and a glob, sort spec or symlink; distinct by case hash",
   );
-  report.rule.push_str("; trees on a memory file system (listing order = creation order); ignore files inside the tree and a per-user ignore file outside it without --ignore; hard links; links sharing a target or pointing at a sibling; `.DS_Store`, names beginning with `!`, names with commas; empty globs, `!!a`, alternatives `{a,b}`, repeated globs (A,B,A); the root spelled `root/` and `root/.`; a file whose name is not UTF-8 (without globs: the command must fail)");
+  report.rule.push_str("; trees on a memory file system (listing order = creation order); ignore files inside the tree and a per-user ignore file outside it without --ignore; hard links; links sharing a target or pointing at a sibling; `.DS_Store`, names beginning with `!`, names with commas; empty globs, `!!a`, alternatives `{a,b}`, repeated globs (A,B,A); the root spelled `root/` and `root/.`, relative and from the top of the file system; a file whose name is not UTF-8 (without globs: the command must fail)");
   report.correspondences.push("C06.files: info.files order written by `imdl torrent create` = Imdlv.Walker.files".into());
   let cases: Vec<Case> = match super::replay_cases(ctx) {
     Some(rc) => rc.iter().filter_map(Case::from_json).collect(),
@@ -528,6 +533,7 @@ pub fn run(ctx: &Ctx) -> Report {
       T::LinkFile(_) => "root:symlink-to-file",
       T::LinkDir(_) => "root:symlink-to-dir",
     });
+    report.hit(&format!("root-spelling:{}", c.root_arg()));
     if i % 90 == 0 {
       report.sample(json!({"case": case, "listed": o.listed, "exit": o.code}));
     }
